@@ -126,6 +126,20 @@ PROPS["C11"] = dict(
 )
 
 
+PROPS["C08"] = dict(
+    lean_targets=["Chihaya.Props.C08"],
+    props_files=["Chihaya/Props/C08.lean"],
+    streams=[dict(name="C08", quick=8000, thorough=250000)],
+    rule="cases: real WriteAnnounceResponse / WriteScrapeResponse / WriteError on generated responses (compact and dictionary form, 0..100 IPv4 and 0..50 IPv6 "
+         "peers with binary ids and edge ports, counts up to 2^32-1, intervals incl. sub-second, negative and MaxInt64, scrapes with repeated infohashes and "
+         "bencode-looking keys, client messages with arbitrary bytes, internal errors carrying secrets); the body is decoded by an independent client library "
+         "(anacrolix/torrent/bencode) and compared with the model's value; non-trivial = every case, distinct op lines",
+    trusted=["modelled not verified: net.IP.String (textual addresses are passed to the model), net/http ResponseWriter, Go map iteration order (= any permutation, covered by decode_any_order)",
+             "the independent decoder (anacrolix/torrent/bencode) and the harness's canonical printer"],
+    assumptions=["responses smaller than 2^63 bytes"],
+)
+
+
 def run_gen(name, repo, lean, work, goenv):
     """regenerate lean/Chihaya/Gen/<Name>.lean from the current source"""
     tr = os.path.join(work, "tr")
@@ -180,7 +194,7 @@ def context_of(stream, ops, i):
     return list(reversed(ctx))
 
 
-STATELESS = {"benc", "vi", "cfg", "appr", "http", "udp"}
+STATELESS = {"benc", "vi", "cfg", "appr", "http", "udp", "httpw"}
 
 
 def oracle(pid, stream, op, impl, model):
